@@ -507,6 +507,17 @@ func (b *stepBuilder) buildStep(
 		}
 	}
 
+	// The step must have something to execute.
+	if step.ExecutorConfig.Type == "" && step.SubWorkflow == nil {
+		cmd := step.Command
+		if step.CmdWithArgs != "" {
+			cmd, _ = util.SplitCommand(step.CmdWithArgs)
+		}
+		if cmd == "" {
+			return nil, errStepCommandIsEmpty
+		}
+	}
+
 	return step, nil
 }
 
